@@ -167,7 +167,7 @@ def layout_check(G, u, bdir, driver):
             n += 1
     src = os.path.join(bdir, 'layout.cpp')
     open(src, 'w').write('\n'.join(cpp) + '\n')
-    rc, out, err, _ = sh(['clang++', '-std=gnu++20', '-DNDEBUG', '-fno-access-control', '-I/repo/src', '-isystem', '/root/miniconda/include',
+    rc, out, err, _ = sh(['clang++', '-std=gnu++20', '-DNDEBUG', '-fno-access-control', '-I' + cxx2c.REPO + '/src', '-isystem', '/root/miniconda/include',
                           '-Wno-everything', '-fsyntax-only', src], timeout=300)
     if rc != 0:
         raise cxx2c.Abort('layout self-check failed (C struct layout differs from clang C++ layout):\n' + err[-3000:])
@@ -186,7 +186,7 @@ def compiler_skew_check(G, u):
             continue
         for i, line in enumerate(open(fn, errors='replace'), 1):
             if re.search(r'^\s*#\s*(if|elif).*(__clang__|__GNUC__|GCC_VERSION|__GNUC_MINOR__)', line):
-                found.append('%s:%d:%s' % (os.path.relpath(fn, '/repo'), i, line.strip()))
+                found.append('%s:%d:%s' % (os.path.relpath(fn, cxx2c.REPO), i, line.strip()))
     reviewed = set(G.get('reviewed_compiler_conditionals', ()))
     new = [x for x in found if re.sub(r':\d+:', ':', x) not in reviewed]
     if new:
@@ -538,7 +538,7 @@ def finish(prop, tier, seed, t0, log, results, undecided, bdir, keep):
                     violations.append((r, p, oid))
     # replay files + lines
     lines = []
-    rdir = os.path.join(ROOT, 'replays', prop)
+    rdir = os.path.join(os.environ.get('VERIF_REPLAY_DIR', os.path.join(ROOT, 'replays')), prop)
     if violations:
         os.makedirs(rdir, exist_ok=True)
     by_job = {}
@@ -585,7 +585,7 @@ def finish(prop, tier, seed, t0, log, results, undecided, bdir, keep):
                       'bounded': r.get('bounded'), 'solver_s': r.get('solver_s'), 'obligations': len([p for p in r['props'] if not p.get('twin')])}
                      for r in results],
             'functions_under_contract': sorted(set(r.get('enforce') for r in results if r.get('enforce'))),
-            'lowered_functions': {g: [{'cxx': f['cxx'], 'c': f['c'], 'src': '%s:%s' % (os.path.relpath(f['file'], '/repo') if f.get('file') else '?', f['line'])}
+            'lowered_functions': {g: [{'cxx': f['cxx'], 'c': f['c'], 'src': '%s:%s' % (os.path.relpath(f['file'], cxx2c.REPO) if f.get('file') else '?', f['line'])}
                                       for f in v['functions_under_lowering']] for g, v in log['groups'].items()},
             'backends': backends, 'solver_time_s': round(solver_time, 2),
             'undecided': undecided,
@@ -595,8 +595,9 @@ def finish(prop, tier, seed, t0, log, results, undecided, bdir, keep):
         'wall_s': round(wall, 2),
         'violations': len(lines),
     }
-    os.makedirs(os.path.join(ROOT, 'evidence'), exist_ok=True)
-    json.dump(ev, open(os.path.join(ROOT, 'evidence', prop + '.json'), 'w'), indent=1)
+    evdir = os.environ.get('VERIF_EVIDENCE_DIR', os.path.join(ROOT, 'evidence'))
+    os.makedirs(evdir, exist_ok=True)
+    json.dump(ev, open(os.path.join(evdir, prop + '.json'), 'w'), indent=1)
     if not keep and not lines and not undecided and os.path.exists(bdir):
         shutil.rmtree(bdir, ignore_errors=True)
     for l in lines:
